@@ -172,7 +172,7 @@ static void explore(Result& R) {
                 else if (s.judge) e = s.judge(x.outcome); else if (functional && x.outcome != s.reference) e = "result-differs-from-the-single-threaded-run: '" + x.outcome.substr(0, 200) + "' vs '" + s.reference.substr(0, 200) + "'";
                 if (!e.empty() && first_err.empty()) { first_err = e; first_sched = x.choices(); } };
             E.explore({});
-            total_exec += E.executions; total_switch += E.with_switch; total_points += E.points; total_pruned += E.pruned; R.tables["schedules_per_subcheck"][s.name + " bound=" + std::to_string(b)] = E.executions; R.tables["distinct_outcomes_per_subcheck"][s.name + " bound=" + std::to_string(b)] = (long)E.outcomes.size();
+            total_exec += E.executions; total_switch += E.with_switch; total_points += E.points; total_pruned += E.pruned; R.tables["schedules_per_subcheck"][s.name + " bound=" + std::to_string(b)] = E.executions; R.tables["distinct_outcomes_per_subcheck"][s.name + " bound=" + std::to_string(b)] = (long)E.outcomes.size(); if (s.name.rfind("peh ", 0) == 0 && b == s.bound) { int pn = 0, pm = 0, pt = 0; sscanf(s.name.c_str(), "peh n=%d failing=%d T=%d", &pn, &pm, &pt); for (auto& o : E.outcomes) R.tables["peh_outcomes"][std::to_string(pn) + " " + std::to_string(pm) + " " + std::to_string(pt) + " => " + o.substr(0, o.find("|ran="))]++; }
             if (E.capped) R.cap("sub-check '" + s.name + "' bound " + std::to_string(b) + " stopped at " + std::to_string(E.executions) + " schedules");
             if (R.samples.size() < 6 && !E.sample_schedules.empty()) R.sample("{\"subcheck\":\"" + s.name + "\",\"bound\":" + std::to_string(b) + ",\"schedule\":\"" + vomp::Explorer::schedule_text(E.sample_schedules.back()) + "\",\"schedules_explored\":" + std::to_string(E.executions) + "}");
             if (!first_err.empty()) { if (first_err.rfind("INTERNAL", 0) == 0) { R.internal_error = first_err + " in " + s.name; return; }
